@@ -6,6 +6,49 @@ func init() {
 	reg := func(c Check) { checks[c.ID] = c }
 	n := func(k int) map[string]int { return map[string]int{"n": k} }
 
+	k := func(v int) map[string]int { return map[string]int{"k": v} }
+	rule := "one state = one feasible path of the real code over symbolic inputs; an assertion is discharged by an unsat answer " +
+		"for PC ∧ ¬assertion, i.e. for every input following that path; distinct paths have disjoint path conditions"
+
+	reg(Check{
+		ID:  "C13",
+		Pkg: "verif/harness/c13",
+		Runs: []RunDef{
+			{Fn: "H_hist", Params: k(1), Tier: "quick", Reach: []string{"end"}},
+			{Fn: "H_hist", Params: k(2), Tier: "quick", Reach: []string{"end"}},
+			{Fn: "H_hist", Params: k(3), Tier: "quick", Reach: []string{"end"}},
+			{Fn: "H_hist", Params: k(4), Tier: "thorough", Reach: []string{"end"}},
+			{Fn: "H_step", Tier: "quick", Reach: []string{"end"}},
+			{Fn: "H_mw", Params: n(1), Tier: "quick", Reach: []string{"end"}},
+			{Fn: "H_mw", Params: n(2), Tier: "quick", Reach: []string{"end"}},
+			{Fn: "H_mw", Params: n(3), Tier: "quick", Reach: []string{"end"}},
+			{Fn: "H_mw", Params: n(4), Tier: "quick", Reach: []string{"end"}},
+			{Fn: "H_mw", Params: n(5), Tier: "thorough", Reach: []string{"end"}},
+		},
+		Rule: rule + "; H_step is the inductive step from an arbitrary state satisfying the representation invariant (covers histories of any length), H_hist enumerates all operation sequences of length k from the initial state with symbolic status codes/payloads",
+		Assumptions: []string{"status codes in [100,999] (net/http's own precondition)", "recorder commits on first Write like net/http", "cookie() is modelled by its effect on the live header map (Header().Set), http.SetCookie's formatting is not executed"},
+		Outside:     []string{"SendFile, Hijack, Flush, response formatter closures", "script-level argument conversion of the ResponseWriter*Method wrappers", "histories longer than 4 outside the inductive argument"},
+	})
+
+	c03 := func(fn string, p map[string]int) RunDef { return RunDef{Fn: fn, Params: p, Tier: "quick", Reach: []string{"end"}} }
+	reg(Check{
+		ID:  "C03",
+		Pkg: "verif/harness/c03",
+		Runs: []RunDef{
+			c03("H_int_arith", nil), c03("H_int_unary", nil), c03("H_int_div", nil), c03("H_float_arith", nil), c03("H_float_rem", nil),
+			c03("H_mixed_arith", nil), c03("H_shift", nil), c03("H_cmp_int", nil), c03("H_cmp_float", nil), c03("H_cmp_mixed", nil), c03("H_cmp_bool", nil),
+			c03("H_cmp_string", map[string]int{"n": 0, "m": 0}), c03("H_cmp_string", map[string]int{"n": 1, "m": 0}), c03("H_cmp_string", map[string]int{"n": 0, "m": 1}),
+			c03("H_cmp_string", map[string]int{"n": 1, "m": 1}), c03("H_cmp_string", map[string]int{"n": 2, "m": 1}), c03("H_cmp_string", map[string]int{"n": 1, "m": 2}),
+			c03("H_cmp_string", map[string]int{"n": 2, "m": 2}),
+			c03("H_truth_int", nil), c03("H_truth_float", nil), c03("H_truth_bool", nil), c03("H_truth_null", nil),
+			c03("H_truth_string", n(0)), c03("H_truth_string", n(1)), c03("H_truth_string", n(2)),
+			c03("H_nocrash", nil), c03("H_nocrash_unary", nil),
+		},
+		Rule:        rule + "; operand payloads are full 64-bit ints / full IEEE doubles (FP theory), strings are symbolic byte tuples of the stated length; templates are parsed by the real lexer+parser on every path",
+		Assumptions: []string{"string comparison domain: non-numeric strings (leading byte >= 'A'); NaN ordering excluded", "truthiness of the string \"0\" is only checked for context independence (docs are silent on its value)"},
+		Outside:     []string{"casts (int)/(float)/(string)/(bool): need package std, whose import drags database drivers into the SSA program", "string<->number juggling beyond the concrete pool", "** and . with symbolic numbers (number formatting / math.Pow are not encoded): concrete boundary pools there", "strings longer than 2 bytes"},
+	})
+
 	reg(Check{
 		ID:  "C14",
 		Pkg: "verif/harness/c14",
